@@ -412,3 +412,56 @@ Example C13_source_filter_match_witness :
   G.TestFilter_filter_match (filter_view f) 0 String.EmptyString 0 G.FilterBound_All false false false false true
     (fun _ => true) true false = G.FilterMatch_Mismatch G.MismatchReason_Partition.
 Proof. vm_compute. split; reflexivity. Qed.
+
+(* ---- one line of a setup script's environment file (C18) *)
+
+(* C18 "the environment file is accepted iff every line has '=' and no key before the first '=' begins with NEXTEST":
+   one turn of the loop of parse_env_file (runner/script_helpers.rs), from `let Some(line) = line` to the end of the loop
+   body, regenerated from the source -- split the line at the first '='; no '=': EnvFileParse; a key that starts with
+   "NEXTEST": EnvFileReservedKey; else insert (key, value) -- is Model/EnvFileLine.v's [line_step] on the bytes of the
+   line, for every line. Reserving only NEXTEST itself and NEXTEST_... falsifies it (NEXTESTX=1). How the lines are read
+   (tokio's Lines) and the BTreeMap stay with C18's differential stage (hook H6). *)
+Theorem C18_source_env_file_line :
+  forall line, line_result_to_model (G.env_file_line line) = Some (MEL.line_step (bytes_of_string line)).
+Proof. exact gen_env_file_line_is_model. Qed.
+Print Assumptions C18_source_env_file_line.
+
+(* ... and the loop of Model/Scripts.v, the function C18's environment-file theorems are about, makes exactly the
+   regenerated step for every line *)
+Theorem C18_source_env_file_loop_of_env_file_line :
+  forall line rest acc,
+    MSc.parse_lines (bytes_of_string line :: rest) acc =
+    match G.env_file_line line with
+    | inl (k, v) => MSc.parse_lines rest (MSc.env_insert (bytes_of_string k) (bytes_of_string v) acc)
+    | inr _ => None
+    end.
+Proof. exact gen_env_file_loop_is_model. Qed.
+Print Assumptions C18_source_env_file_loop_of_env_file_line.
+
+(* the model's facts, from the property text: one reserved line makes the whole file unacceptable wherever it stands;
+   an accepted file has only lines `k=v` whose key does not begin with NEXTEST *)
+Theorem C18_reserved_line_rejects_file :
+  forall ls1 l ls2, MEL.line_step l = inr MEL.LineReservedKey -> MSc.parse_env (ls1 ++ l :: ls2) = None.
+Proof. exact PEL.reserved_line_rejects_file. Qed.
+Print Assumptions C18_reserved_line_rejects_file.
+
+Theorem C18_accepted_file_lines :
+  forall ls m l, MSc.parse_env ls = Some m -> In l ls ->
+                 exists k v, MEL.line_step l = inl (k, v) /\ BS.is_prefix MSc.NEXTEST k = false.
+Proof. exact PEL.accepted_file_lines. Qed.
+Print Assumptions C18_accepted_file_lines.
+
+(* non-vacuity: NEXTESTX=1 is reserved, NEXT=1 is not, a line without '=' is a parse error -- on the generated step *)
+Module C18Lit.
+  Import Strings.String.
+  Definition reserved : string := "NEXTESTX=1".
+  Definition plain : string := "NEXT=1=2".
+  Definition plain_key : string := "NEXT".
+  Definition plain_value : string := "1=2".
+  Definition no_equals : string := "NEXTEST".
+End C18Lit.
+Example C18_source_env_file_line_witness :
+  G.env_file_line C18Lit.reserved = inr G.SetupScriptOutputError_EnvFileReservedKey /\
+  G.env_file_line C18Lit.plain = inl (C18Lit.plain_key, C18Lit.plain_value) /\
+  G.env_file_line C18Lit.no_equals = inr G.SetupScriptOutputError_EnvFileParse.
+Proof. vm_compute. repeat split. Qed.
